@@ -96,7 +96,8 @@ def run(P: Program, rep: Report):
     lists += [["Ann Author", "Jean \\'Elan"], ["Jean \\'Elan", "Ann Author", "Jean \\'Elan"], ["Ann Author", "Jean {\\'E}lan", "de la Cruz, Maria"]]
     # a name may contain the bare word `and` (tied with `~`, or as its very first word): merged, it must not read as a separator
     lists += [["Drumpf, Harry~and~Fellowes"], ["Drumpf, Harry~and~Fellowes", "Ann Author"], ["and Smith", "Bob Jones"], ["Ann Author", "and Smith"],
-              ["Harry~And Fellowes Drumpf", "Ann Author"], ["Ann Author", "Smith,~and"]]
+              ["Harry~And Fellowes Drumpf", "Ann Author"], ["Ann Author", "Smith,~and"], ["Smith, Jo~and", "Jones, B."], ["Jo~and Smith~AND", "Ann Author"],
+              ["Smith~and, Jr~and, Jo~and", "Ann Author"]]
     # words that begin / end with a character str.strip() removes but which is an ordinary character for BibTeX and for the tokenisers
     lists += [["Bob \u00a0Smith"], ["Ann Author", "Bob \u00a0Smith"], ["Bob\x0c Smith", "Ann Author"], ["Bob Smith\u2009", "Ann Author"]]
     bad2 = {}
@@ -157,6 +158,35 @@ def run(P: Program, rep: Report):
     from .c06 import check_templates
     ncfg, npaths = check_templates(P, rep, "C14.R3", None, [[("entry", 2), ("entry", 1)]], trailings=(True,), vcmodes=("zero", "sym"))
     rep.require_count("C14.R3", "writer paths", npaths, 2)
+
+    rep.rule("C14.R4", "through the entry points: parse_string(append_middleware=[SeparateCoAuthors, SplitNameParts]) and write_string("
+                       "prepend_middleware=[MergeNameParts, MergeCoAuthors]) apply all four middlewares whether they are given as a list, a tuple "
+                       "or a one-shot iterator (a generator): the written document carries the merged names and re-parses to the same persons")
+    from ..absint import AIter as _AIter
+    nm_ = P.module("middlewares.names")
+    doc = "@book{k,\n  author = {Ann Author and de la Cruz, Maria and {Barnes and Noble}},\n  title = {T}\n}\n"
+
+    def through_entry_points(ctx, kind):
+        it = driver_interp(P, ctx, "entrypoint")
+        it.MAX_LOOP = 2000
+        box = (lambda xs: AList(xs)) if kind == "list" else (lambda xs: tuple(xs)) if kind == "tuple" else (lambda xs: _AIter(xs))
+        mk = lambda n: it.construct(nm_.classes[n], [], {})
+        try:
+            lib = call_func(it, P.func("entrypoint", "parse_string"), doc, append_middleware=box([mk("SeparateCoAuthors"), mk("SplitNameParts")]))
+            persons = lambda l: [[tuple(it.iterate(it.get_attr(p_, k_))) for k_ in ("first", "von", "last", "jr")]
+                                 for p_ in it.iterate(it.get_attr(it.iterate(it.get_attr(it.iterate(it.get_attr(l, "entries"))[0], "fields"))[0], "value"))]
+            p1 = persons(lib)
+            text = call_func(it, P.func("entrypoint", "write_string"), lib, prepend_middleware=box([mk("MergeNameParts"), mk("MergeCoAuthors")]))
+            lib2 = call_func(it, P.func("entrypoint", "parse_string"), text, append_middleware=box([mk("SeparateCoAuthors"), mk("SplitNameParts")]))
+            return (p1, text, persons(lib2))
+        except (Raised, Unsupported, LoopBound) as e_:
+            return str(e_)
+    for kind in ("list", "tuple", "iterator"):
+        for ctx, v in explore(lambda c: through_entry_points(c, kind), 20):
+            ok = isinstance(v, tuple) and len(v[0]) == 3 and isinstance(v[1], str) and "author = {Author, Ann and de la Cruz, Maria and {Barnes and Noble}}" in v[1] and v[2] == v[0]
+            rep.check(ok, "C14.R4", f"entry-points:{kind}", P.func("entrypoint", "write_string").loc,
+                      f"middlewares given as a {kind}: {v!r:.600}; expected three persons, the line `author = {{Author, Ann and de la Cruz, Maria and {{Barnes and Noble}}}}` "
+                      f"in the written text and the same persons after re-parsing")
 
     rep.rule("C14.R9", "no unsafe memoisation in the modules this property rests on: a function decorated with lru_cache / cache / "
                       "cached_property neither takes nor returns a mutable object (else later calls see stale or shared results)")
